@@ -54,8 +54,8 @@ Fixpoint trace (k : hkind) (c : cfg) (s : hstate) (evs : list (event * Z)) : lis
    from upstream; socket states after shutdown() (run only when the connection was torn down); the
    interest set if it is still alive *)
 Record final_obs := mkFO {
-  f_res : N; f_cout : bytes; f_uout : bytes; f_cpend : bytes; f_upend : bytes;
-  f_uprcvd : bytes; f_clrcvd : bytes;
+  f_res : N; f_cout : bytes; f_uout : bytes; f_cpend : N; f_upend : N;
+  f_uprcvd : N; f_clrcvd : N;           (* lengths: the contents are determined by the event list *)
   f_cclosed : bool; f_uclosed : N;      (* upstream: 0 = none, 1 = open, 2 = closed *)
   f_int : N }.
 
@@ -67,32 +67,54 @@ Definition final_of (k : hkind) (c : cfg) (sel : list (option outcome)) (s : hst
             | Continue => s
             | _ => match k with KHttp => shutdown c sel s | KTunnel => tunnel_shutdown s end
             end in
-  mkFO (res_code r) (sent (work s')) (delivered_upstream s') (pending (work s')) (pending_upstream s')
-       (g_up_rcvd s') (g_cl_rcvd s') (closed (work s')) (up_state s')
+  mkFO (res_code r) (sent (work s')) (delivered_upstream s') (len (pending (work s'))) (len (pending_upstream s'))
+       (len (g_up_rcvd s')) (len (g_cl_rcvd s')) (closed (work s')) (up_state s')
        (match r with Continue => int_code (k_interest k s') | _ => 0 end).
 
 Definition final_obs_eqb (a b : final_obs) : bool :=
   (f_res a =? f_res b) && bytes_eqb (f_cout a) (f_cout b) && bytes_eqb (f_uout a) (f_uout b)
-  && bytes_eqb (f_cpend a) (f_cpend b) && bytes_eqb (f_upend a) (f_upend b)
-  && bytes_eqb (f_uprcvd a) (f_uprcvd b) && bytes_eqb (f_clrcvd a) (f_clrcvd b)
+  && (f_cpend a =? f_cpend b) && (f_upend a =? f_upend b)
+  && (f_uprcvd a =? f_uprcvd b) && (f_clrcvd a =? f_clrcvd b)
   && Bool.eqb (f_cclosed a) (f_cclosed b) && (f_uclosed a =? f_uclosed b) && (f_int a =? f_int b).
 
+(* compact encodings used by the generated case files (parsing the literals dominates the cost):
+   times are offsets from t0; the ready set is a bit mask (1 = client readable, 2 = client writable,
+   4 = upstream readable, 8 = upstream writable) *)
+Definition bit (f k : N) : bool := N.testbit f k.
+Inductive cev :=
+| CE (off flags : N) (cs us : outcome) (cr ur : recv_res) (rq : req_outcome) (cd : cdata_outcome) (poff : N)
+| CW (off flags : N) (cs us : outcome) (poff : N).        (* nothing to read, no oracle consulted *)
+
+Definition ev_of (t0 : Z) (e : cev) : event * Z :=
+  match e with
+  | CE off f cs us cr ur rq cd poff =>
+      (mkEvent (t0 + Z.of_N off) (bit f 0) (bit f 1) (bit f 2) (bit f 3) cs us cr ur rq cd, (t0 + Z.of_N poff)%Z)
+  | CW off f cs us poff =>
+      (mkEvent (t0 + Z.of_N off) (bit f 0) (bit f 1) (bit f 2) (bit f 3) cs us ROsErr ROsErr RIncomplete DNothing,
+       (t0 + Z.of_N poff)%Z)
+  end.
+
+(* observation with last_activity as an offset from t0 *)
+Inductive cso := SO (int res csent usent cpend upend la_off : N) (inactive : bool).
+Definition so_of (t0 : Z) (o : cso) : step_obs :=
+  match o with SO i r a b c d la x => mkSO i r a b c d (t0 + Z.of_N la) x end.
+
 Inductive relay_case :=
-| CRelay (k : hkind) (c : cfg) (t0 : Z) (evs : list (event * Z)) (sel : list (option outcome))
-         (exp : list step_obs) (fin : final_obs).
+| CRelay (k : hkind) (c : cfg) (t0 : Z) (evs : list cev) (sel : list (option outcome))
+         (exp : list cso) (fin : final_obs).
 
 Definition check_relay_case (rc : relay_case) : bool :=
   match rc with
   | CRelay k c t0 evs sel exp fin =>
-      let '(os, s, r) := trace k c (init t0) evs in
-      list_eqb step_obs_eqb os exp && final_obs_eqb (final_of k c sel s r) fin
+      let '(os, s, r) := trace k c (init t0) (map (ev_of t0) evs) in
+      list_eqb step_obs_eqb os (map (so_of t0) exp) && final_obs_eqb (final_of k c sel s r) fin
   end.
 
 (* for replay files: the model's own output *)
 Definition model_output (rc : relay_case) : list step_obs * final_obs :=
   match rc with
   | CRelay k c t0 evs sel exp fin =>
-      let '(os, s, r) := trace k c (init t0) evs in (os, final_of k c sel s r)
+      let '(os, s, r) := trace k c (init t0) (map (ev_of t0) evs) in (os, final_of k c sel s r)
   end.
 
 (* one case type for the three properties *)
